@@ -38,6 +38,21 @@ FORMULAS = [
 ]
 
 
+def _same_cell(u, w):
+    if u is w:
+        return True
+    from vf import symx as _sx
+
+    if isinstance(u, _sx.Sym) or isinstance(w, _sx.Sym):
+        return False
+    try:
+        if u != u and w != w:  # both NaN
+            return True
+        return bool(u == w)
+    except Exception:  # noqa
+        return False
+
+
 def used_from_text(formula):
     """names of data columns the formula text mentions (bare, inside calls, keyword values,
     back-quoted)"""
@@ -79,15 +94,17 @@ def cases(tier):
                     continue
                 if tier == "quick" and pi > 18 and (pi + fi) % 3 != 0:
                     continue
-                out.append((fi, pat, a, False))
+                out.append((fi, pat, a, False, False))
                 if a == "drop" and pat:
-                    out.append((fi, pat, a, True))  # same, under an index with repeated labels
+                    out.append((fi, pat, a, True, False))  # same, under an index with repeated labels
+                    if pi % 4 == 1:
+                        out.append((fi, pat, a, False, True))  # same, on a frame that has exactly the used columns
     return out
 
 
 def signature(case, v):
     info = v.get("info") or {}
-    sig = {"formula": FORMULAS[case[0]][0], "missing": [list(c) for c in case[1]], "na_action": case[2], "dup_index": case[3], "what": v["label"].split(" [")[0]}
+    sig = {"formula": FORMULAS[case[0]][0], "missing": [list(c) for c in case[1]], "na_action": case[2], "dup_index": case[3], "only_used_columns": case[4], "what": v["label"].split(" [")[0]}
     if isinstance(info, dict) and "exc" in info:
         sig["exc"], sig["site"] = info["exc"], info.get("site")
     return sig
@@ -119,7 +136,7 @@ def labels_of(dm):
 def harness(env, case):
     from formulae import design_matrices
 
-    fi, pat, action, dupindex = case
+    fi, pat, action, dupindex, only_used = case
     formula, _, pointwise = FORMULAS[fi]
     used = used_from_text(formula)
     cols = {}
@@ -138,6 +155,10 @@ def harness(env, case):
             vals = list(dirty[c].values)
             vals[r] = None
             dirty[c] = pd.Series(vals, dtype="str", index=dirty.index)
+    if only_used:
+        keepcols = [c for c in dirty.columns if c in used]
+        clean, dirty = clean[keepcols], dirty[keepcols].copy()
+    before = (list(dirty.columns), list(dirty.index), dirty.shape, [list(dirty[c].values) for c in dirty.columns])
     bad_rows = sorted({r for c, r in pat if c in used})
     keep = [i for i in range(N) if i not in bad_rows]
     ns = {"shrink": shrink}
@@ -145,6 +166,11 @@ def harness(env, case):
     def run(frame, act):
         with env.running():
             return design_matrices(formula, frame, na_action=act, extra_namespace=ns)
+
+    def untouched():
+        now = (list(dirty.columns), list(dirty.index), dirty.shape, [list(dirty[c].values) for c in dirty.columns])
+        same = now[:3] == before[:3] and all(len(a) == len(b) and all(_same_cell(u, w) for u, w in zip(a, b)) for a, b in zip(now[3], before[3]))
+        env.prove(same, "the caller's frame is left untouched (rows, index, columns, cells)")
 
     if action not in ("drop", "error", "pass"):
         try:
@@ -182,6 +208,7 @@ def harness(env, case):
         raise
     except Exception as e:
         dm, raised = None, e
+    untouched()
     if action == "error":
         if bad_rows:
             env.prove(isinstance(raised, ValueError), "error: ValueError iff a used variable is missing (must raise)", {"exc": type(raised).__name__ if raised else None})
